@@ -1,7 +1,7 @@
 (* sexp <-> message / session values for the driver. *)
 From Coq Require Import ZArith NArith List Bool.
 From Coq.Strings Require Import Byte.
-From SV Require Import Base.Bytes Base.Py Base.Sexp Gen.Generated Asn1.Model Msg.Types Msg.Encode Msg.Decode Sess.Model Filt.Text.
+From SV Require Import Base.Bytes Base.Py Base.Sexp Gen.Generated Asn1.Model Msg.Types Msg.Encode Msg.Decode Msg.Rfc Msg.RfcDecode Sess.Model Filt.Text.
 Import ListNotations.
 Local Open Scope Z_scope.
 
@@ -202,6 +202,7 @@ Definition run_msg (cmd : Z) (args : list sexp) : option sexp :=
       m <-? g_msg m ;; rest <-? g_bytes rest ;;
       let b := enc_msg m in
       Some (SList [SBytes b; s_res (s_pair s_msg SBytes) (unpack_message budget (b ++ rest))])
+  | 103, [d] => d <-? g_bytes d ;; Some (s_opt s_msg (strict_decode d))
   | 110, [SInt r; cs] =>
       cs <-? g_list g_call cs ;;
       Some (SList (run_trace (init (if r =? 0 then Client else Server)) cs))
